@@ -42,8 +42,16 @@ func mkRec(meta *metapb.Store, lw, rw float64) *rec {
 	hb := cp.LastHeartbeat
 	cp.LastHeartbeat = 0
 	raw, _ := cp.Marshal()
-	return &rec{ID: cp.GetId(), State: cp.GetState(), Destroyed: cp.GetPhysicallyDestroyed(), Addr: cp.GetAddress(), Meta: cp.String(),
-		Labels: fmt.Sprint(cp.GetLabels()), LW: lw, RW: rw, LastHB: hb, pb: cp, raw: raw}
+	text, ltext := "", ""
+	if n := len(cp.GetLabels()); n > 64 {
+		// a record with a generated label set: rendered in short (comparisons use pb / raw)
+		ltext = fmt.Sprintf("<%d labels, first %v>", n, cp.GetLabels()[0])
+		text = fmt.Sprintf("id:%d address:%q state:%s physically_destroyed:%v version:%q labels:%s", cp.GetId(), cp.GetAddress(), cp.GetState(), cp.GetPhysicallyDestroyed(), cp.GetVersion(), ltext)
+	} else {
+		text, ltext = cp.String(), fmt.Sprint(cp.GetLabels())
+	}
+	return &rec{ID: cp.GetId(), State: cp.GetState(), Destroyed: cp.GetPhysicallyDestroyed(), Addr: cp.GetAddress(), Meta: text,
+		Labels: ltext, LW: lw, RW: rw, LastHB: hb, pb: cp, raw: raw}
 }
 
 func labelsEqual(a, b []*metapb.StoreLabel) bool {
